@@ -405,6 +405,9 @@ class SimNet:
             raise OSError(113, f"No route to host {address!r}")
         # established
         spec = self.hosts[host]
+        if spec.server_factory is None:  # the host stopped listening while the SYN was in flight
+            rec["outcome"] = "refuse/late"
+            raise ConnectionRefusedError(111, f"Connect call failed {address!r}")
         conn = SimConn(self, len(self.conns), host, sock, None)
         self.conns.append(conn)
         self.open_set.add(conn)
